@@ -68,7 +68,10 @@ where
         let new_bounds = (bounds.start + self.bounds.start.to_usize())
             ..(bounds.end + self.bounds.start.to_usize());
 
-        if self.data.get(new_bounds.clone()).is_some() {
+        // The new bounds have to be within the current slice, not just within the string data
+        if new_bounds.end <= self.bounds.end.to_usize()
+            && self.data.get(new_bounds.clone()).is_some()
+        {
             try_from_range(&new_bounds).map(|bounds| Self {
                 data: self.data.clone(),
                 bounds,
